@@ -2,7 +2,7 @@
     [Layout.accounted] is the decision procedure the harness evaluates on the independent decoder's view of every
     file image; this file proves that a "yes" of that procedure is the declarative partition. *)
 From Bbolt Require Import Base Consts Spec Fnv Layout LayoutProofs LayoutOrderProofs Pager PagerProofs.
-From Bbolt Require Node Tree TreeProofs.
+From Bbolt Require Node Tree TreeProofs TreeNestedProofs.
 From Coq Require Import Permutation.
 
 Theorem C07_accounting_decision_sound : forall v free,
@@ -80,4 +80,12 @@ Theorem C07_bucket_commit_no_double_free : forall ps fill fuel t order t' evs in
   (forall x, In x (ids t') <-> In x (ids t) /\ ~ In x (map fst (freed evs))).
 Proof. exact commit_bucket_frees. Qed.
 Print Assumptions C07_bucket_commit_no_double_free.
+
+(** and for a bucket with child buckets (write-back of the children's values, then inline-or-spill) *)
+Import TreeNestedProofs.
+Theorem C07_nested_commit_frees_exactly_what_it_drops : forall ps fill fuel t order children t' evs inl,
+  (0 < fuel)%nat -> aligned t -> commit_parent_bucket ps fill fuel t order children = Ok (t', evs, inl) ->
+  Permutation (runs t) (freed evs ++ runs t').
+Proof. exact commit_parent_bucket_runs. Qed.
+Print Assumptions C07_nested_commit_frees_exactly_what_it_drops.
 End TreeLayer.
